@@ -42,7 +42,7 @@ def random_config(rnd: random.Random) -> T.Dict[str, T.Any]:
     if rnd.random() < 0.7:
         cfg['max_line_length'] = rnd.choice([10, 20, 40, 60, 80, 120])
     if rnd.random() < 0.5:
-        cfg['indent_by'] = rnd.choice(["'  '", "'    '", "'\t'", "' '"])
+        cfg['indent_by'] = rnd.choice(["'  '", "'    '", "'\t'", "' '", "''"])
     if rnd.random() < 0.3:
         cfg['indent_before_comments'] = rnd.choice(["' '", "'  '", "''"])
     if rnd.random() < 0.3:
